@@ -29,23 +29,3 @@ impl<Req, Resp> PendingRequests<Req, Resp> {
     { unimplemented!() }
 }
 
-pub struct CV { pub drained: bool, pub reg: bool }
-#[verifier::external_body]
-pub struct CanceledRequests { _p: u8 }
-impl CanceledRequests {
-    pub uninterp spec fn view(&self) -> CV;
-    /// Stream::poll_next of cancellations::CanceledRequests (forwards to UnboundedReceiver::poll_recv)
-    #[verifier::external_body]
-    pub fn poll_next(&mut self, cx: &mut TaskCx) -> (r: Poll<Option<u64>>)
-        ensures
-            match r {
-                Poll::Ready(Some(_)) => final(self)@.drained == old(self)@.drained,
-                Poll::Ready(None) => final(self)@.drained,
-                Poll::Pending => final(self)@.reg && final(self)@.drained == old(self)@.drained,
-            },
-            old(self)@.drained ==> r matches Poll::Ready(None),
-    { unimplemented!() }
-}
-
-/// `ServerError` (tarpc/src/lib.rs): opaque payload of a failed response.
-#[verifier::external_body] pub struct ServerError { _p: u8 }
